@@ -384,11 +384,30 @@ def bounded(tier, seed):
                             return 'slice_dim(%r) variable %s: %s' % (txt, vk, e)
                     return H.wf(g)
                 run.case('C02:slice_dim string form', (si, txt), t)
+    # the IOAPI wrapper (cmaqfiles/_ioapi.py sliceDimensions): every variable INCLUDING the time flags is the requested hyperslab
+    from rtc import ioapi as IOH
+    for boundary in (False, True):
+        f = IOH.make_ioapi(P, nt=5, nz=3, ny=4, nx=5, boundary=boundary, seed=seed)
+        nsel = dict(TSTEP=5, LAY=3, ROW=4, COL=5, PERIM=2 * (5 + 4) + 4)
+        for d in ('TSTEP', 'LAY') + (('PERIM',) if boundary else ('ROW', 'COL')):
+            n = nsel[d]
+            for s_ in (0, -1, slice(1, None), slice(None, None, 2), slice(None, None, -1), [0, n - 2, n - 1], [n - 1, n - 1, 1], [n // 2]):
+                def t(f=f, d=d, s_=s_):
+                    g = f.sliceDimensions(**{d: (list(s_) if isinstance(s_, list) else s_)})
+                    for vk, v in f.variables.items():
+                        if vk not in g.variables:
+                            return 'variable %s dropped' % vk
+                        exp = orth(v[...], v.dimensions, {d: s_}) if d in v.dimensions else np.ma.asarray(v[...])
+                        e = H.arr_equal(g.variables[vk][...], exp)
+                        if e:
+                            return 'IOAPI variable %s%r is not the requested hyperslab: %s' % (vk, tuple(v.dimensions), e)
+                    return None
+                run.case('C02:ioapi sliceDimensions(%s)' % d, (boundary, d, repr(s_)), t)
     return run.result(
         rule='real sliceDimensions / slice_dim vs an independent orthogonal-selection oracle (numpy.take per axis, zipped lists along one new axis); '
              'every variable compared element-wise incl. masks, dimensions, attributes; inputs snapshotted',
         bound='files of the C01 space; per axis selectors {ints +-, slices with None/+-1/+-2/out-of-range/empty/reversed, lists with repeats}; all single axes, '
-              'all ordered pairs of axes (both keyword orders)')
+              'all ordered pairs of axes (both keyword orders); IOAPI gridded and boundary files: every dimension x 8 selectors incl. uneven and repeating index lists (time flags included)')
 
 
 def bounded_replay(p):
